@@ -4,7 +4,12 @@
    A parsed body token carries every (column, row, formatter) whose Python rendering is that
    token (the harness renders every value through every formatter with Python's own
    str/repr/format/isoformat); the model's line must be one of them.  Parts the harness
-   did not parse (the "hostile values" stream: totality and footer only) are [None]. *)
+   did not parse (the "hostile values" stream: totality and footer only) are [None].
+
+   The text "..." is what the two private markers of display.py print as (the row gap, the
+   hidden-columns cell); a str-column cell equal to '...' prints the same text as its own
+   str(), so a token can be the marker's text AND carry candidates: the model decides which
+   it must be (a marker line [IEll]/[HEll] needs the text, a row needs a candidate). *)
 From Coq Require Import List Bool Arith ZArith.
 From Serif Require Import Base.PyVal Model.Repr.
 Import ListNotations.
@@ -18,7 +23,8 @@ Definition fmt_eqb (a b : fmt) : bool :=
 
 (* a parsed body token: is it the text "...", and which (column, row, formatter) render to it *)
 Inductive oitem := OI (is_ell : bool) (cands : list (nat * nat * fmt)).
-(* a parsed display-name token: is it "...", and which columns' stored names render to it *)
+(* a parsed display-name token: is it the bare text "..." (a column NAMED '...' is quoted: '...'),
+   and which columns' stored names render to it *)
 Inductive ohitem := OH (is_ell : bool) (cands : list nat).
 
 Definition item_matches (j : nat) (m : item) (o : oitem) : bool :=
